@@ -17,12 +17,12 @@ CHECKS = [
     ("C05", "e1", "number <-> bits codecs for every width 1..128, both byte orders, every in-byte offset, symbolic values (Kani)"),
     ("C06", "e2", "every cursor word of the real bitstr_ext.rs from an arbitrary cursor state: offset/remain bookkeeping, failure atomicity, open/close nesting (one-step lemmas, z3)"),
     ("C07", "e1+e2", "pack/emit words hand exactly from_int/from_f/append to the output (E2 lemmas) and the bit-level inverse law on 2-3 field records with symbolic widths' contents (Kani)"),
-    ("C08", "e1+e2", "panic freedom of every native word reachable within the path budget from arbitrary states (mirsym, overflow checks on and off) plus Kani kernels for index arithmetic; words not covered are listed in the evidence"),
+    ("C08", "e1+e2", "panic freedom of every VM opcode arm and of every native word decided within the path budget, from arbitrary states (mirsym, overflow checks on and off), plus Kani kernels for bit and index arithmetic; words not covered are listed in the evidence, a committed baseline makes the loss of a previously decided word inconclusive"),
     ("C09", "e2", "every arithmetic / comparison / bitwise word of the real arith.rs against the mathematical specification on arbitrary operands (i128 / f64 bit-precise), both overflow-check flavours"),
     ("C10", "e2", "error-path frame lemmas on the real build_from_source with the token-level builder replaced by arbitrary failing builds (leftover control structures, meta contexts, included sources, code, words); next-line-after-failed-run lemmas; composition on paper"),
     ("C11", "e2", "sealing lemmas on all 17 stack accessors from states with arbitrary hidden parts; closing a meta block on the real context_close (<= 3 new words, <= 2 results); whole-program equivalence with the inlined literal on paper"),
-    ("C12", "e1+e2", "index arithmetic of nth/slice for every isize index (Kani); order laws of Cell::cmp / Cell::eq on two arbitrary cells (mirsym) - the known finding is reported, not suppressed; rpds and std sort trusted given a lawful order"),
-    ("C13", "e2", "relational lemmas: every covered word run on tagged and untagged operands gives results equal modulo tags, from arbitrary states"),
+    ("C12", "e1+e2", "index arithmetic of nth/slice for every isize index (Kani); order laws of Cell::cmp / Cell::eq on two arbitrary cells incl. tag transparency (mirsym) - the known finding is reported, not suppressed; insert/get/remove/push/collect against the association-list / sequence model with value semantics (one-step lemmas); rpds and std sort trusted given a lawful order; string slicing and text building not covered"),
+    ("C13", "e2", "relational lemmas: every covered word run on tagged and untagged operands gives results equal modulo tags, from arbitrary states; with_tags never nests; cmp / == see through tags; words that iterate persistent vectors through adaptor chains or build text are not covered"),
     ("C14", "e2", "stack/heap/instruction limits as one-step lemmas with symbolic limits on the real push_data / alloc_heap / fetch_and_run, plus a MIR scan that nothing else grows the stack or heap"),
     ("C15", "e2", "recording on/off transparency per opcode arm, next vs step, run vs repeated next as one-step relational lemmas"),
     ("C16", "e2", "one call of the real Lex::next from any char boundary of a text of symbolic Unicode characters (<= 4/6 left), long digit strings, and the integer / bit-string printer read back by the literal rules"),
